@@ -516,3 +516,60 @@ fire("c07-decorator-on-method-changes-result", ["C07", "C01"], B + "affine.py",
      "    def transform(self, x, condition=None):\n        return x * self.scale + self.loc\n",
      "    @(lambda m: (lambda self, x, condition=None: jnp.round(m(self, x, condition), 6)))\n"
      "    def transform(self, x, condition=None):\n        return x * self.scale + self.loc\n")
+
+# ------------------------------------------------------------------------------ round 5 rules
+fire("c04-spline-interval-array-leaf", "C04", B + "rational_quadratic_spline.py",
+     "        self.x_pos = wrappers.Lambda(pos_parameterization, jnp.zeros(knots))\n",
+     "        self.x_pos = wrappers.Lambda(_real_to_increasing_on_interval, jnp.zeros(knots), "
+     "interval=jnp.asarray(interval, float), softmax_adjust=softmax_adjust)\n", "C04.static-interval")
+silent("c04-benign-spline-interval-static-kwarg", ["C04", "C07", "C11"], B + "rational_quadratic_spline.py",
+       "        self.x_pos = wrappers.Lambda(pos_parameterization, jnp.zeros(knots))\n",
+       "        self.x_pos = wrappers.Lambda(_real_to_increasing_on_interval, jnp.zeros(knots), "
+       "interval=interval, softmax_adjust=softmax_adjust)\n")
+fire("c04-bnaf-mask-applied-once", "C04", B + "block_autoregressive_network.py",
+     "    weight = Where(block_tril_mask, linear.weight, 0)\n",
+     "    weight = jnp.where(block_tril_mask, linear.weight, 0)\n", "C04.bnaf-mask")
+silent("c04-benign-bnaf-where-keywords", ["C04", "C09"], B + "block_autoregressive_network.py",
+       "    weight = Where(block_tril_mask, linear.weight, 0)\n",
+       "    weight = Where(cond=block_tril_mask, if_true=linear.weight, if_false=0)\n")
+fire("c10-inverter-tol-converter", "C10", "flowjax/bisection_search.py",
+     "    tol: float = 1e-7\n", "    tol: float = eqx.field(default=1e-7, converter=lambda t: max(t, 1e-6))\n",
+     "C10.inverter")
+silent("c10-benign-inverter-tol-cast", "C10", "flowjax/bisection_search.py",
+       "    tol: float = 1e-7\n", "    tol: float = eqx.field(default=1e-7, converter=float)\n")
+fire("c10-inverter-post-init-caps-max-iter", "C10", "flowjax/bisection_search.py",
+     "    def __check_init__(self):\n        if not self.lower < self.upper:",
+     "    def __post_init__(self):\n        self.max_iter = min(self.max_iter, 30)\n\n"
+     "    def __check_init__(self):\n        if not self.lower < self.upper:", "C10.inverter")
+fire("c11-non-trainable-wraps-in-unrecognised-class", "C11", "flowjax/wrappers.py",
+     "        return NonTrainable(leaf) if eqx.is_inexact_array(leaf) else leaf",
+     "        return Lambda(lax.stop_gradient, leaf) if eqx.is_inexact_array(leaf) else leaf", "C11.frozen")
+fire("c16-max-patience-or-default", "C16", "flowjax/train/data_fit.py",
+     "    data = (x,) if condition is None else (x, condition)\n",
+     "    max_patience = max_patience or max_epochs\n    data = (x,) if condition is None else (x, condition)\n",
+     "C16.stop")
+fire("c16-steps-rebound", "C16", "flowjax/train/variational_fit.py",
+     "    if optimizer is None:", "    steps = max(steps, 1)\n    if optimizer is None:", "C16.count")
+fire("c17-loss-eq-ignores-stick-the-landing", ["C17", "C14"], "flowjax/train/losses.py",
+     "        self.stick_the_landing = stick_the_landing\n",
+     "        self.stick_the_landing = stick_the_landing\n\n    def __eq__(self, other):\n"
+     "        return isinstance(other, ElboLoss) and self.num_samples == other.num_samples and self.target is other.target\n\n"
+     "    def __hash__(self):\n        return hash(self.num_samples)\n")
+silent("c17-benign-loss-eq-covers-state", ["C17", "C14"], "flowjax/train/losses.py",
+       "        self.stick_the_landing = stick_the_landing\n",
+       "        self.stick_the_landing = stick_the_landing\n\n    def __eq__(self, other):\n"
+       "        return isinstance(other, ElboLoss) and self.num_samples == other.num_samples and "
+       "self.target is other.target and self.stick_the_landing == other.stick_the_landing\n\n"
+       "    def __hash__(self):\n        return hash(self.num_samples)\n")
+fire("c14-unhashable-dataclass-callable", "C14", "flowjax/train/losses.py",
+     "class MaximumLikelihoodLoss:\n",
+     "import dataclasses\n\n\n@dataclasses.dataclass\nclass _Neg:\n    sign: float\n\n    def __call__(self, x):\n"
+     "        return self.sign * x\n\n\n_NEG = _Neg(-1.0)\n\n\nclass MaximumLikelihoodLoss:\n", "C14.static-eq")
+fire("c13-wrapper-skips-checks-when-nested", "C13", B + "bijection.py",
+     "        # TODO This can be simplified significantly if we use beartype\n",
+     "        if getattr(_unwrap_check_and_cast, 'depth', 0) > 0:\n            return method(unwrap(bijection), x, condition)\n"
+     "        # TODO This can be simplified significantly if we use beartype\n", "C13.exact")
+fire("c12-nontrainable-overrides-recursive-unwrap", "C12", "flowjax/wrappers.py",
+     "    tree: T\n    _dummy: ClassVar[None] = None\n\n    def unwrap(self) -> T:\n        differentiable, static = eqx.partition(self.tree, eqx.is_array_like)",
+     "    tree: T\n    _dummy: ClassVar[None] = None\n\n    def recursive_unwrap(self):\n        return self.unwrap()\n\n"
+     "    def unwrap(self) -> T:\n        differentiable, static = eqx.partition(self.tree, eqx.is_array_like)", "C12.recursive")
